@@ -240,6 +240,11 @@ def check_c20(pid, tier, t0, replay_key):
     findings, obl, samples, s = e5.rule_q1(P)
     st = base_stats(P)
     st.update(s)
+    f2, o2, s2, st2 = e5.rule_l2(P)
+    findings += f2
+    obl += o2
+    samples += s2
+    st.update(st2)
     common.check_floors(pid, {"q1_obligations": len(obl)}, tables)
     if tier == "thorough":
         st["selftest"] = run_selftest(pid)
@@ -247,7 +252,9 @@ def check_c20(pid, tier, t0, replay_key):
         "Decides one clause of C20 (Q1, single pipeline): in the whole-program call graph, from each public entry point (fontc::run for the CLI, "
         "fontc::generate_font for the library) there is a function through which every path to Workload::new, Workload::exec, FeContext::new_root "
         "and BeContext::new_root passes, the two entry points share it, and those four are not called from anywhere outside it. Formulated as a "
-        "call-graph dominator, so renaming or splitting the function is not an alarm. NOT decided: container equivalence (.glyphs file vs "
+        "call-graph dominator, so renaming or splitting the function is not an alarm. (L2) A necessary condition of container equivalence for Glyphs "
+        "sources: the functions that only the .glyphspackage route executes never consult custom parameters (content is interpreted once, on the "
+        "common RawFont -> Font path). NOT decided: container equivalence in general (.glyphs file vs "
         ".glyphspackage vs in-memory text), UFO vs single-source designspace agreement, insensitivity to source formatting - those are parser "
         "semantics over input values.")
     rule_text = "one obligation per entry point, per shared-dominator test and per scheduler/context constructor (callers confined below the dominator)"
@@ -430,7 +437,39 @@ def check_c18(pid, tier, t0, replay_key):
                          f"./check {pid} --tier {tier}", replay_key)
 
 
+# ---------------------------------------------------------------------------------------------- C19
+def check_c19(pid, tier, t0, replay_key):
+    import e1, e6
+    P = program()
+    tables = common.load_tables()
+    E = e1.E1(P)
+    M = e1.build_model(E)
+    findings, obl, samples, st6 = e6.run(P, M, tables)
+    st = base_stats(P)
+    st.update(st6)
+    common.check_floors(pid, st, tables)
+    if tier == "thorough":
+        st["selftest"] = run_selftest(pid)
+    explanation = (
+        "Decides WHERE a value can wrap, saturate or diverge between debug and release builds in the value path - every function reachable from a "
+        "job's exec that lives in fontbe, fontir or fontdrasil - and that each such place is range-bounded (audited reason), guarded, or a listed "
+        "finding. Sites are named by MIR built with -C overflow-checks=on: narrowing or sign-changing integer casts (Rvalue::Cast IntToInt), "
+        "float-to-int casts, calls of the saturating conversions OtRound::ot_round / F2Dot14::from_f64 / Fixed::from_f64, and arithmetic on "
+        "integers narrower than 64 bits (Assert(Overflow): panics in the test profile, wraps in the shipped one). A new site - e.g. try_into + "
+        "error replaced by `as u16`, a count moved into u16 arithmetic - has no table entry and is a violation. The unguarded saturating "
+        "conversions of source-provided metrics, offsets, kerning/anchor values and deltas (the defect family reproduced as advance 70000 -> hmtx "
+        "65535 with exit 0) are listed individually as KNOWN findings by call site; the PaintColrLayers u8 wrap found by this census was repaired "
+        "(0d0e704). NOT decided: conversions inside external crates (write-fonts glyf point rounding, kurbo), that a fallback (decomposition) "
+        "preserves shape, and the readers'/front ends' own parsing casts (enumerated only when they lie on the value path).")
+    rule_text = "one obligation per narrowing-site group (function, kind, types); every site in the value path is enumerated from MIR, none sampled"
+    assumptions = ["bounded verdicts rest on the recorded range argument (read and confirmed on the pinned tree)",
+                   "write-fonts OtRound / F2Dot14::from_f64 / Fixed::from_f64 saturate (float `as` semantics)"]
+    return common.finish(pid, tier, t0, findings, obl, samples, explanation, rule_text, st, assumptions, TRUSTED,
+                         f"./check {pid} --tier {tier}", replay_key)
+
+
 CHECKS = {
+    "C19": check_c19,
     "C01": check_c01,
     "C18": check_c18,
     "C13": check_c13,
